@@ -181,7 +181,7 @@ def run(tier):
                 samples.append({**label, "type_expr": gql.type_str(t), "rust": got})
         if set(found) - set(c["expected"]):
             rep.violation("unexpected_members", label, sorted(set(found) - set(c["expected"])))
-        if c["fmt"] == "sdl" and c["position"] in ("response", "variable") and c["kind"] != "ID":
+        if c["fmt"] == "sdl" and c["position"] in ("response", "variable"):
             prelude = "pub type Date = String;"
             fc = Case(r["tokens"], [("op", "Op")], prelude=prelude)
             c["farm_case"] = farm.add(fc)
